@@ -279,6 +279,7 @@ def run_impl(case):
         o["mean"] = _try(lambda: M.mean(x, w))
         o["variance"] = _try(lambda: M.variance(x, w))
         o["moment"] = _try(lambda: M.moment(x, w, order))
+        o["moment_tol"] = _try(lambda: M.moment(x, w, order, tol))
         o["std"] = _try(lambda: M.std(x, w))
         o["spread"] = _try(lambda: M.spread(x))
         o["expectation"] = _try(lambda: M.expectation(f, x, w, tol))
@@ -499,6 +500,13 @@ def oracle(case, obs):
             chk("mean", mu)
             chk("variance", _ref_moment(x, w, 2))
             chk("moment", F(1) if order == 0 else F(0) if order == 1 else _ref_moment(x, w, order))
+            if order >= 2 and "moment_tol" in obs and obs["moment_tol"].get("v") is not None:
+                # with a tolerance: still the moment about the TRUE mean, reported as 0 only when it is itself within the tolerance
+                refm, t_ = _ref_moment(x, w, order), F(case["tol"])
+                if abs(abs(refm) - t_) > F(1, 10 ** 6):
+                    want = F(0) if abs(refm) <= t_ else refm
+                    if not _close(obs["moment_tol"]["v"], want):
+                        out.append(_fail("moment_is_textbook", "measures.moment", "value-with-tolerance", dict(got=obs["moment_tol"]["v"], want=float(want), tol=case["tol"])))
             sd = obs["std"]["v"]
             if sd is None or sd < 0 or not _close(F(sd) ** 2, _ref_moment(x, w, 2)):
                 out.append(_fail("std_is_textbook", "measures.std", "value", dict(got=sd)))
